@@ -174,8 +174,8 @@ func (l *cbLog) take() map[int][]delivered {
 	return g
 }
 
-var c20Filters = []string{"a", "a/b", "a/+", "a/#", "+/b", "x/y", "x/+/z", "#", "q/r/s", "a/b/c"}
-var c20Topics = []string{"a", "a/b", "a/c", "a/b/c", "x/y", "x/1/z", "q/r/s", "never/subscribed", "z", "q/b"}
+var c20Filters = []string{"a", "a/b", "a/+", "a/#", "+/b", "x/y", "x/+/z", "#", "q/r/s", "a/b/c", "q/$s"}
+var c20Topics = []string{"a", "a/b", "a/c", "a/b/c", "x/y", "x/1/z", "q/r/s", "never/subscribed", "z", "q/b", "q/$s", "a/$t"}
 
 func c20Dispatch(idx int, seed uint64) {
 	r := spec.NewRand(seed)
